@@ -201,8 +201,25 @@ type bworker struct {
 	s *bmsys.SIM
 }
 
+// backendDelays: "sim+delay(inc=4)" = the simulator with a fixed simulated delay for one opcode (the simulator's own
+// notion of a slow instruction, as `-sim-delays-file` configures it).
+func backendDelays(backend string) map[string]int32 {
+	i := strings.Index(backend, "+delay(")
+	if i < 0 {
+		return nil
+	}
+	kv := strings.SplitN(strings.TrimSuffix(backend[i+len("+delay("):], ")"), "=", 2)
+	n, _ := strconv.Atoi(kv[1])
+	return map[string]int32{kv[0]: int32(n)}
+}
+
 func exploreBehaviour(g dfGraph, backend string, horizon, stalls, maxStates int) bOutcome {
-	out := bOutcome{g: g, backend: backend, violations: map[string]viol2{}}
+	delays := backendDelays(backend)
+	fullBackend := backend
+	if delays != nil {
+		backend = "sim"
+	}
+	out := bOutcome{g: g, backend: fullBackend, violations: map[string]viol2{}}
 	bm, err := bmsys.Build(g.system())
 	if err != nil {
 		out.notSimulable = err.Error()
@@ -223,7 +240,7 @@ func exploreBehaviour(g dfGraph, backend string, horizon, stalls, maxStates int)
 		if backend == "hdl" {
 			w.h = h0.Clone()
 		} else {
-			w.s, _ = bmsys.NewSIM(bm, true)
+			w.s, _ = bmsys.NewSIMDelays(bm, true, delays)
 		}
 		return w
 	}
@@ -436,7 +453,7 @@ func exploreBehaviour(g dfGraph, backend string, horizon, stalls, maxStates int)
 		init.hdl = h0.Initial
 		init.bk = string(h0.Initial)
 	} else {
-		s, _ := bmsys.NewSIM(bm, false)
+		s, _ := bmsys.NewSIMDelays(bm, false, delays)
 		init.sim = s.Snapshot()
 		init.bk = bmsys.Key(init.sim)
 	}
